@@ -185,4 +185,52 @@ theorem chunk6 (f s : Nat) (a0 a1 a2 a3 a4 a5 : Nat) (h0 : f / 2 ^ (s+0) % 2 = a
   generalize f / 2 ^ s = g at *
   omega
 
+theorem digitRadix_eq (f : Nat) :
+    (if mantissaRadix f > exponentRadix f then mantissaRadix f else exponentRadix f) = (unpack f).digitRadix := by
+  obtain ⟨_, _, _, hm, _, hr⟩ := bytes_unpack f
+  rw [hm, hr]; unfold Unpacked.digitRadix
+  split <;> omega
+
+theorem optControl_spec (f : Nat) (en : Bool) (v : Nat) (hv : v < 256) (hR : (unpack f).digitRadix < 37) :
+    (if en = true then isValidOptionalControl f v else v == 0) =
+      decide (OptionalControl en (unpack f).digitRadix v) := by
+  unfold OptionalControl
+  simp only [isValidOptionalControl, digitRadix_eq]
+  cases en
+  · simp [Bool.beq_eq_decide_eq]
+  · simp [control_spec _ hR _ hv]
+
+theorem unpack_bytes_lt (f : Nat) :
+    (unpack f).digitSeparator < 256 ∧ (unpack f).basePrefix < 256 ∧ (unpack f).baseSuffix < 256 ∧
+    (unpack f).mantissaRadix < 256 ∧ (unpack f).exponentBaseRaw < 256 ∧ (unpack f).exponentRadixRaw < 256 := by
+  simp only [unpack, Format.digitSeparator, Format.basePrefix, Format.baseSuffix, Format.mantissaRadix,
+    Format.exponentBaseRaw, Format.exponentRadixRaw, Format.byteAt]
+  omega
+
+theorem punctuation_pure (fmt : Bool) (s p q : Nat) (hs : fmt = false → s = 0) :
+    (if (!fmt && s != 0) = true then false
+      else if s = 0 ∧ p = 0 ∧ q = 0 then true
+      else if p = 0 ∧ q = 0 then true
+      else if s = 0 ∧ q = 0 then true
+      else if s = 0 ∧ p = 0 then true
+      else s != p && s != q && p != q) =
+    decide ((s ≠ 0 → p ≠ 0 → s ≠ p) ∧ (s ≠ 0 → q ≠ 0 → s ≠ q) ∧ (p ≠ 0 → q ≠ 0 → p ≠ q)) := by
+  cases fmt
+  · simp at hs
+    by_cases p0 : p = 0 <;> by_cases q0 : q = 0 <;> simp [hs, p0, q0] <;>
+      (rw [Bool.eq_iff_iff]; simp; omega)
+  · by_cases s0 : s = 0 <;> by_cases p0 : p = 0 <;> by_cases q0 : q = 0 <;> simp [s0, p0, q0] <;>
+      (rw [Bool.eq_iff_iff]; simp; omega)
+
+/-- `is_valid_punctuation`, once the digit separator itself has been accepted -/
+theorem punctuation_spec (feats : Features) (f : Nat)
+    (hs : OptionalControl feats.format (unpack f).digitRadix (unpack f).digitSeparator) :
+    isValidPunctuation feats f = decide (PunctuationDistinct (unpack f)) := by
+  obtain ⟨h1, h2, h3, -, -, -⟩ := bytes_unpack f
+  unfold isValidPunctuation PunctuationDistinct
+  simp only [h1, h2, h3]
+  apply punctuation_pure
+  intro hf
+  simpa [OptionalControl, hf] using hs
+
 end LexVerif.Props.C18
